@@ -1,5 +1,18 @@
 use crate::polynomials::{PolynomialError, structs::SimplePolynomial};
 
+/// Largest exponent accepted by `parse_simple_polynomial` (the coefficient vector is dense)
+pub const MAX_POWER: usize = 65_535;
+
+// A number written with digits and at most one decimal point, optionally negated.
+// (`str::parse::<f64>` alone would also read "inf", "nan" and "1e5".)
+fn parse_plain_decimal(text: &str) -> Option<f64> {
+    let digits = text.strip_prefix('-').unwrap_or(text);
+    if digits.is_empty() || !digits.chars().all(|c| c.is_ascii_digit() || c == '.') {
+        return None;
+    }
+    text.parse::<f64>().ok()
+}
+
 pub fn parse_simple_polynomial<S>(input: S) -> Result<SimplePolynomial, PolynomialError>
 where
     S: AsRef<str>,
@@ -33,38 +46,42 @@ where
                 } else if coeff_str == "-" {
                     -1.0
                 } else {
-                    coeff_str
-                        .parse::<f64>()
-                        .map_err(|_| PolynomialError::InvalidCoefficient {
+                    parse_plain_decimal(coeff_str).ok_or_else(|| {
+                        PolynomialError::InvalidCoefficient {
                             coeff: coeff_str.to_string(),
-                        })?
+                        }
+                    })?
                 };
 
-                if let Some(pow) = part.find('^') {
-                    let pow_str = &part[pow + 1..];
-                    let power =
-                        pow_str
-                            .parse::<usize>()
-                            .map_err(|_| PolynomialError::InvalidExponent {
-                                pow: pow_str.to_string(),
-                            })?;
-                    (coeff, power)
-                } else {
+                // Nothing but an exponent may follow the variable
+                let rest = &part[x + var.len_utf8()..];
+                if rest.is_empty() {
                     // x^1 value
                     (coeff, 1)
+                } else if let Some(pow_str) = rest.strip_prefix('^') {
+                    let power = pow_str
+                        .parse::<usize>()
+                        .ok()
+                        .filter(|&power| {
+                            power <= MAX_POWER && pow_str.chars().all(|c| c.is_ascii_digit())
+                        })
+                        .ok_or_else(|| PolynomialError::InvalidExponent {
+                            pow: pow_str.to_string(),
+                        })?;
+                    (coeff, power)
+                } else {
+                    return Err(PolynomialError::UnexpectedChar {
+                        char: rest.chars().next().unwrap_or(var),
+                    });
                 }
             } else {
                 // No 'x' aka num is constant
-                let constant = part
-                    .parse::<f64>()
-                    .map_err(|_| PolynomialError::InvalidConstant)?;
+                let constant = parse_plain_decimal(part).ok_or(PolynomialError::InvalidConstant)?;
                 (constant, 0)
             }
         } else {
             // No variable (just constant)
-            let constant = part
-                .parse::<f64>()
-                .map_err(|_| PolynomialError::InvalidConstant)?;
+            let constant = parse_plain_decimal(part).ok_or(PolynomialError::InvalidConstant)?;
             (constant, 0)
         };
         terms.push(term);
